@@ -531,7 +531,7 @@ def emit_function(g, f, out, resumable=False, yield_filter=None, stubbed=False):
         cur[1].append(l.strip())
     # first pass: types of SSA values we need: do lazily while emitting: we emit 'T v = ...' into decl list
     def lab(n):
-        n = n.lstrip('%')
+        n = n.lstrip('%').strip('"')   # quoted labels (names with '$', e.g. inlined lambdas): same name as the block definition (blname)
         return 'L_' + re.sub(r'[^A-Za-z0-9_]', '_', n)
     # collect phis per block: block -> [(dest, ty, [(valtoks, pred)])]
     phis = {}
@@ -814,7 +814,7 @@ def intrinsic(g, fg, name, cargs, args, rty):
     base = name[len('@llvm.'):]
     if base.startswith('lifetime.') or base.startswith('dbg.') or base.startswith('experimental.noalias') or base.startswith('invariant.'):
         return None
-    if base.startswith('memcpy.'): return 'memcpy(%s, %s, %s)' % (cargs[0], cargs[1], cargs[2])
+    if base.startswith('memcpy.'): return 'VF_MEMCPY(%s, %s, %s)' % (cargs[0], cargs[1], cargs[2])
     if base.startswith('memmove.'): return 'memmove(%s, %s, %s)' % (cargs[0], cargs[1], cargs[2])
     if base.startswith('memset.'): return 'memset(%s, %s, %s)' % (cargs[0], cargs[1], cargs[2])
     if base == 'assume': return 'VF_LLVM_ASSUME(%s)' % cargs[0]
@@ -859,6 +859,8 @@ typedef unsigned char u1;
 #define VF_VSTORE(T, p, v) (*(volatile T*)(p) = (v))
 #endif
 #define VF_FENCE() ((void)0)
+/* llvm.memcpy allows source and destination to be the same address (struct self assignment), C's memcpy does not */
+#define VF_MEMCPY(d, s, n) ((const void*)(d) == (const void*)(s) ? (void*)(d) : memcpy((d), (s), (n)))
 #ifndef VF_BSWAP32
 #define VF_BSWAP16(x) ((uint16_t)((((uint16_t)(x)) >> 8) | (((uint16_t)(x)) << 8)))
 #define VF_BSWAP32(x) ((uint32_t)((((uint32_t)(x)) >> 24) | ((((uint32_t)(x)) >> 8) & 0xff00u) | ((((uint32_t)(x)) << 8) & 0xff0000u) | (((uint32_t)(x)) << 24)))
